@@ -133,7 +133,9 @@ def gen_file_spec(rng, fidx, tagger):
         else:
             shape, wcs = [], {}
         hdu = dict(kind=kind, shape=shape, wcs=wcs, uid=uid)
-        if kind == "img" and j > 0 and rng.random() < 0.3:
+        if kind == "img" and set(wcs) == {" "} and rng.random() < 0.3:
+            hdu["cube"] = True          # stored as (1, 1, ny, nx) with FREQ and STOKES axes: the celestial plane is the image
+        elif kind == "img" and j > 0 and rng.random() < 0.3:
             hdu["comp"] = True          # a tile-compressed image extension (astropy CompImageHDU): image data like any other
         hdus.append(hdu)
     return hdus
@@ -167,6 +169,10 @@ def write_fits(path, spec):
                 hd["CDELT1" + s] = -0.01
                 hd["CDELT2" + s] = 0.01
             data = np.full(tuple(h["shape"]), float(h["uid"]), dtype=np.float32)
+            if h.get("cube"):
+                data = data.reshape((1, 1) + data.shape)
+                hd["CTYPE3"], hd["CRVAL3"], hd["CRPIX3"], hd["CDELT3"] = "FREQ", 1.0e9, 1.0, 1.0e6
+                hd["CTYPE4"], hd["CRVAL4"], hd["CRPIX4"], hd["CDELT4"] = "STOKES", 1.0, 1.0, 1.0
             if h.get("comp") and j > 0:
                 hdus.append(fits.CompImageHDU(data, header=hd, compression_type="GZIP_1", quantize_level=0.0))
             else:
